@@ -242,7 +242,7 @@ theorem bwBV_inertZ (op : BW) {x : LinComb} (hx : x.value = 0 ∨ x.value = 1) {
     all_goals (simp only [bwBV]; exact Inert.bind (truthy_inert _) (fun _ hc => bwOr_constZ hx hc))
 
 theorem bwLV_inertZ (op : BW) (x : LinComb) {o : Val} (ho : BoolV o)
-    (hx : o.isLcb = true → isBooleanValue x.value = true) : Inert zd p res BoolV (bwLV op x o) := by
+    (hx : o.isLcbG = true → isBooleanValue x.value = true) : Inert zd p res BoolV (bwLV op x o) := by
   cases o
   case lcb y =>
     cases op
